@@ -44,6 +44,9 @@ def gen_pattern(cfg):
     """Returns an AST {"k":"pat","pre":anchor|None,"body":node,"post":anchor|None}."""
     r = cfg.r
     cfg.ngroups = 0
+    if getattr(cfg, "p_empty", 0.0) and r.random() < cfg.p_empty:
+        # the degenerate program: the empty pattern (what "|".join([]) gives), alone or anchored
+        return {"k": "pat", "pre": r.choice((None, None, "^")), "body": {"k": "seq", "items": []}, "post": r.choice((None, None, "$"))}
     body = _gen_alt_or_seq(cfg, cfg.depth, cfg.budget)
     pre = r.choice(("^", "\\A")) if r.random() < 0.2 else None
     post = r.choice(("$", "\\Z")) if r.random() < 0.2 else None
